@@ -35,6 +35,11 @@ pub enum Op {
     DropArr,
     /// the k-th element destructor running during the wrapped operation panics
     Bomb(u64, Box<Op>),
+    /// the k-th call of Clone::clone (kind 0) / Default::default (kind 1) during the wrapped
+    /// operation panics
+    Fuse(u64, u64, Box<Op>),
+    /// t.clone_from(&TooDee::from_vec(c, r, d))
+    CloneFrom(u64, u64, Vec<u32>),
 }
 
 fn enc_drain(o: &mut Vec<u64>, st: &[DStep], f: DEnd) {
@@ -83,6 +88,8 @@ impl Op {
             Op::IntoIter(k) => o.extend([19, *k]),
             Op::DropArr => o.push(20),
             Op::Bomb(k, op) => { o.extend([21, *k]); op.encode(o) }
+            Op::Fuse(kind, k, op) => { o.extend([22, *kind, *k]); op.encode(o) }
+            Op::CloneFrom(c, r, d) => { o.extend([23, *c, *r, d.len() as u64]); o.extend(d.iter().map(|x| *x as u64)); }
         }
     }
     pub fn decode(i: &mut std::slice::Iter<'_, u64>) -> Op {
@@ -110,6 +117,8 @@ impl Op {
             19 => Op::IntoIter(n()),
             20 => Op::DropArr,
             21 => { let k = n(); Op::Bomb(k, Box::new(Op::decode(i))) }
+            22 => { let kind = n(); let k = n(); Op::Fuse(kind, k, Box::new(Op::decode(i))) }
+            23 => { let c = n(); let r = n(); let l = n(); Op::CloneFrom(c, r, (0..l).map(|_| n() as u32).collect()) }
             x => panic!("bad opcode {x}"),
         }
     }
@@ -207,6 +216,16 @@ fn apply<T: Elem>(t: &mut TooDee<T>, op: &Op, ret: &mut Vec<u64>) {
             LEDGER.with(|l| l.borrow_mut().drop_panic_in = Some(*k));
             apply(t, op, ret);
         }
+        Op::Fuse(kind, k, op) => {
+            LEDGER.with(|l| { let mut l = l.borrow_mut(); if *kind == 0 { l.clone_panic_in = Some(*k) } else { l.default_panic_in = Some(*k) } });
+            apply(t, op, ret);
+        }
+        Op::CloneFrom(c, r, d) => {
+            let v: Vec<T> = d.iter().map(|x| T::mk(*x)).collect();
+            let src = TooDee::from_vec(u(c), u(r), v);
+            t.clone_from(&src);
+            ret.push((*t == src && t.size() == src.size()) as u64);
+        }
     }
 }
 
@@ -259,7 +278,7 @@ pub fn run_hist<T: Elem>(ops: &[Op], obs: &mut Vec<u64>) {
     for op in ops {
         let mut ret: Vec<u64> = vec![];
         let ok = catch_unwind(AssertUnwindSafe(|| apply(&mut t, op, &mut ret))).is_ok();
-        LEDGER.with(|l| l.borrow_mut().drop_panic_in = None);
+        LEDGER.with(|l| { let mut l = l.borrow_mut(); l.drop_panic_in = None; l.clone_panic_in = None; l.default_panic_in = None; });
         if !ok {
             ret.clear();
         }
@@ -303,7 +322,7 @@ fn zst_safe(op: &Op) -> bool {
         Op::New(c, r) | Op::Init(c, r, _) => small(c) && small(r),
         Op::InsertRow(_, s) | Op::PushRow(s) | Op::InsertCol(_, s) | Op::PushCol(s) => small(&s.claimed),
         Op::Capacity(..) => true,
-        Op::Bomb(..) => false,
+        Op::Bomb(..) | Op::Fuse(..) => false,
         _ => true,
     }
 }
@@ -646,6 +665,8 @@ fn shadow_dims(op: &Op, (c, r): (u64, u64)) -> (u64, u64) {
         Op::PopCol(_, f) => if c == 0 { (c, r) } else if *f == DEnd::Forget || c == 1 { (0, 0) } else { (c - 1, r) },
         Op::SwapDims => (r, c),
         Op::Bomb(_, o) => shadow_dims(o, (c, r)),
+        Op::Fuse(..) => (c, r),
+        Op::CloneFrom(a, b, d) => if zero_ok(*a, *b) && a.checked_mul(*b) == Some(d.len() as u64) { (*a, *b) } else { (c, r) },
         _ => (c, r),
     }
 }
@@ -760,10 +781,52 @@ pub fn gen_c11_iter(out: &mut Out, tier: &str, rng: &mut Rng) {
             }
         }
     }
+    // Clone / Default that panic at their k-th call, for every operation that calls them:
+    // init, fill, clone, clone_from (every pair of shapes), new
+    let fmax = if tier == "quick" { 3 } else { 4 };
+    for (c, r) in shapes(fmax) {
+        let n = c * r;
+        let mut fused: Vec<(u64, u64, Op)> = vec![];   // (kind, number of calls, op)
+        fused.push((0, n.saturating_sub(1), Op::Fill(4242)));
+        fused.push((0, n, Op::CloneArr));
+        for (c2, r2) in shapes(fmax) {
+            let n2 = c2 * r2;
+            fused.push((0, n2, Op::CloneFrom(c2, r2, ids(n2 as usize, 7000))));
+            if c == 0 || (c + r + c2 + r2) % 2 == 0 {
+                fused.push((0, n2.saturating_sub(1), Op::Init(c2, r2, 4243)));
+                fused.push((1, n2, Op::New(c2, r2)));
+            }
+        }
+        fused.push((0, 0, Op::CloneFrom(2, 0, vec![])));            // rejected source
+        fused.push((0, 0, Op::Init(0, 3, 4244)));                   // rejected before any clone
+        for (kind, calls, op) in fused {
+            for k in 0..=calls + 1 {
+                let tail = vec![
+                    Op::PushRow(Script::honest(ids(8, 600))),      // accepted only on an empty / 8-wide array
+                    Op::Fill(4300),
+                    Op::RemoveCol(0, vec![DStep::Front, DStep::Back], DEnd::Drop),
+                    Op::Clear,
+                ];
+                let mut ops = vec![FromVecOp(c, r), Op::Fuse(kind, k, Box::new(op.clone()))];
+                ops.extend(tail);
+                emit(out, 11, true, &ops);
+                if k == 0 { let mut o2 = vec![FromVecOp(c, r), Op::Fuse(kind, k, Box::new(op.clone())), Op::Clear]; o2.truncate(3); emit(out, 11, false, &o2); }
+            }
+        }
+    }
     let (n, maxlen) = if tier == "quick" { (1500, 10) } else { (40000, 30) };
-    for _ in 0..n {
+    for i in 0..n {
         let len = 1 + rng.below(maxlen) as usize;
         let mut ops = rand_history(rng, len, false, false);
+        // every third random history: some Clone-calling steps get a fuse
+        if i % 3 == 0 {
+            ops = ops.into_iter().map(|o| match &o {
+                Op::Fill(_) | Op::CloneArr | Op::Init(..) if rng.chance(60) => Op::Fuse(0, rng.below(6), Box::new(o)),
+                Op::New(..) if rng.chance(60) => Op::Fuse(1, rng.below(6), Box::new(o)),
+                _ => o }).collect();
+            if rng.chance(50) { let (c2, r2) = (1 + rng.below(3), 1 + rng.below(3)); let at = rng.below(ops.len() as u64 + 1) as usize;
+                let cf = Op::CloneFrom(c2, r2, ids((c2 * r2) as usize, 7100)); ops.insert(at, if rng.chance(50) { Op::Fuse(0, rng.below(c2 * r2 + 1), Box::new(cf)) } else { cf }); }
+        }
         ops.push(Op::DropArr);
         emit(out, 11, true, &ops);
     }
